@@ -245,6 +245,10 @@ TOOL_CONTENTS = [
     "===D===\n" + "  " * 150 + "K::1\n===END===\n", "é" * 50, "===D===\nMETA:\n  TYPE::X\n  CONTRACT::[FIELD[A]::REQ∧ENUM[x,y]]\nA::z\n===END===\n", "===SCH===\nMETA:\n  TYPE::PROTOCOL_DEFINITION\n  VERSION::\"1.0\"\nPOLICY:\n  VERSION::\"1.0\"\n  UNKNOWN_FIELDS::REJECT\nFIELDS:\n  A::[\"x\"∧REQ∧REGEX[\"(\"]]\n===END===\n",
     "===D===\nA::" + "9" * 5000 + "\n===END===\n", "===D===\n§1::S\n  K::NAME<>\n===END===\n", "\ufeff===D===\nA::1\n===END===\n", "===D===\r\nA::1\r\n===END===\r\n",
 ]
+# blocks nested deeper than the converters' own recursion budgets (the reader accepts up to about 950 levels)
+TOOL_CONTENTS += ["===D===\n" + "".join(" " * i + f"B{i}:\n" for i in range(600)) + " " * 600 + "K::1\n===END===\n"]
+# text a JSON transport can deliver but UTF-8 cannot encode (lone surrogates from \udXXX escapes)
+TOOL_CONTENTS += ['===DOC===\nA::"x\udc80y"\n===END===\n', "\ud800", '===D===\nMETA:\n  TYPE::"\udfff"\nK::1\n===END===\n']
 TOOL_CONTENTS += [
     # receipt-bearing constructs with non-string values (the tools copy parser receipts into their envelopes)
     "===D===\nPATTERN::[a,b]\n===END===\n", '===D===\nREGEX::["x"∧REQ→§SELF]\n===END===\n', "===D===\nPATTERN::\n```\nraw\n```\n===END===\n", "===D===\nL::[PATTERN::[a,b],REGEX::5,ENUM::\"x\"]\n===END===\n",
